@@ -257,7 +257,13 @@ type c03StringerMap map[string]float64
 func (o c03StringerMap) c03id() (int, int64, float64) { return 11, int64(o["c"]), o["f"] }
 func (o c03StringerMap) String() string               { return fmt.Sprintf("strmap#%d", int64(o["c"])) }
 
-// errors (plain: no Formatter, no causes)
+// errors.  An error value is more than its Error() text: zapcore.encodeError also looks at whether
+// the dynamic type is a fmt.Formatter (%+v -> key+"Verbose"), whether it is an error group
+// (Errors() []error -> key+"Causes"), whether calling Error() panics and whether the value is a nil
+// pointer ("<nil>").  Every error type below has all of that determined by (type, C); c03EInfo reads
+// it off the value with the standard library only (never through zap).
+//
+// plain: no Formatter, no members
 type c03Err struct {
 	C int64
 	F float64
@@ -288,6 +294,201 @@ type c03ErrSl []float64
 
 func (o c03ErrSl) c03id() (int, int64, float64) { return 14, int64(o[0]), o[1] }
 func (o c03ErrSl) Error() string                { return fmt.Sprintf("errsl#%d", int64(o[0])) }
+
+// a fmt.Formatter whose %+v form differs from Error() (github.com/pkg/errors style)
+type c03ErrFmt struct {
+	C int64
+	F float64
+}
+
+func (o c03ErrFmt) c03id() (int, int64, float64) { return 24, o.C, o.F }
+func (o c03ErrFmt) Error() string                { return fmt.Sprintf("efmt#%d", o.C) }
+func (o c03ErrFmt) Format(s fmt.State, verb rune) {
+	if verb == 'v' && s.Flag('+') {
+		fmt.Fprintf(s, "efmt#%d\n  at frame.go:%d", o.C, 40+o.C)
+		return
+	}
+	fmt.Fprint(s, o.Error())
+}
+
+// a fmt.Formatter whose %+v form IS Error(): no Verbose entry
+type c03ErrFmtSame struct {
+	C int64
+	F float64
+}
+
+func (o c03ErrFmtSame) c03id() (int, int64, float64)    { return 25, o.C, o.F }
+func (o c03ErrFmtSame) Error() string                   { return fmt.Sprintf("esame#%d", o.C) }
+func (o c03ErrFmtSame) Format(s fmt.State, verb rune)   { fmt.Fprint(s, o.Error()) }
+
+// a fmt.Formatter on the pointer; nil-safe
+type c03ErrFmtPS struct {
+	C int64
+	F float64
+}
+
+func (o *c03ErrFmtPS) c03id() (int, int64, float64) {
+	if o == nil {
+		return 26, 0, 0
+	}
+	return 26, o.C, o.F
+}
+func (o *c03ErrFmtPS) Error() string {
+	if o == nil {
+		return "efmtp#nilptr"
+	}
+	return fmt.Sprintf("efmtp#%d", o.C)
+}
+func (o *c03ErrFmtPS) Format(s fmt.State, verb rune) {
+	fmt.Fprint(s, o.Error())
+	if verb == 'v' && s.Flag('+') {
+		fmt.Fprint(s, " +detail")
+	}
+}
+
+// an error group (go.uber.org/multierr style): the members are a function of C
+type c03ErrGroup struct {
+	C int64
+	F float64
+}
+
+func (o c03ErrGroup) c03id() (int, int64, float64) { return 27, o.C, o.F }
+func (o c03ErrGroup) Error() string                { return fmt.Sprintf("egroup#%d", o.C) }
+func (o c03ErrGroup) Errors() []error              { return c03GroupMembers(o.C) }
+
+func c03GroupMembers(c int64) []error {
+	switch ((c % 4) + 4) % 4 {
+	case 0: // an empty group
+		return []error{}
+	case 1: // nil members are skipped; a Formatter member keeps its Verbose entry
+		return []error{c03Err{c, 0}, nil, c03ErrFmt{c, 0}, nil}
+	case 2: // a nil pointer member, a group inside a group, a group that is also a Formatter
+		return []error{(*c03ErrV)(nil), c03ErrGroup{1, 0}, c03ErrMulti{1, 0}, c03ErrFmtSame{c, 0}}
+	default: // a member whose Error() panics ends the array
+		return []error{c03Err{c, 0}, c03ErrGroup{1, 0}, c03ErrPanic{c, 0}, c03Err{c + 1, 0}}
+	}
+}
+
+// an uncomparable group that is also a fmt.Formatter (multierr's own error type is both): the group wins
+type c03ErrMulti []float64
+
+func (o c03ErrMulti) c03id() (int, int64, float64) { return 28, int64(o[0]), o[1] }
+func (o c03ErrMulti) Error() string                { return fmt.Sprintf("emulti#%d", int64(o[0])) }
+func (o c03ErrMulti) Errors() []error {
+	return []error{c03ErrFmt{int64(o[0]), 0}, c03Err{int64(o[0]) + 1, 0}}
+}
+func (o c03ErrMulti) Format(s fmt.State, verb rune) {
+	fmt.Fprint(s, o.Error())
+	if verb == 'v' && s.Flag('+') {
+		fmt.Fprint(s, " (2 members)")
+	}
+}
+
+// Error has a VALUE receiver and the error is held by pointer: on a nil pointer calling Error()
+// panics (zap renders "<nil>"); on a non-nil pointer it is a plain error
+type c03ErrV struct {
+	C int64
+	F float64
+}
+
+func (o *c03ErrV) c03id() (int, int64, float64) {
+	if o == nil {
+		return 29, 0, 0
+	}
+	return 29, o.C, o.F
+}
+func (o c03ErrV) Error() string { return fmt.Sprintf("errv#%d", o.C) }
+
+// the same for a type that is also a fmt.Formatter (value receivers throughout)
+type c03ErrFmtV struct {
+	C int64
+	F float64
+}
+
+func (o *c03ErrFmtV) c03id() (int, int64, float64) {
+	if o == nil {
+		return 30, 0, 0
+	}
+	return 30, o.C, o.F
+}
+func (o c03ErrFmtV) Error() string { return fmt.Sprintf("efmtv#%d", o.C) }
+func (o c03ErrFmtV) Format(s fmt.State, verb rune) {
+	fmt.Fprint(s, o.Error())
+	if verb == 'v' && s.Flag('+') {
+		fmt.Fprint(s, "\n\tstack")
+	}
+}
+
+// Error() panics on a value that is not a nil pointer (zap reports it under key+"Error")
+type c03ErrPanic struct {
+	C int64
+	F float64
+}
+
+func (o c03ErrPanic) c03id() (int, int64, float64) { return 31, o.C, o.F }
+func (o c03ErrPanic) Error() string                { panic(fmt.Sprintf("boom#%d", o.C)) }
+
+type c03ErrPanicPS struct {
+	C int64
+	F float64
+}
+
+func (o *c03ErrPanicPS) c03id() (int, int64, float64) {
+	if o == nil {
+		return 32, 0, 0
+	}
+	return 32, o.C, o.F
+}
+func (o *c03ErrPanicPS) Error() string { panic(fmt.Errorf("boomp#%d", o.C)) }
+
+// c03EInfo: what an error value exposes, in the encoding of C03/Model.v einfo_of_sx
+//
+//	#msg                                   Error() returns msg; not a Formatter, not a group
+//	(0 #msg () | (#verbose)  () | ((m..))) Error() returns msg; fmt.Formatter: %+v text; group: members (0 = nil)
+//	(1)                                    a nil pointer on which Error() panics
+//	(2 #text)                              Error() panics otherwise; text = the panic value under %v
+//
+// Obtained by calling the value's own methods and fmt -- an oracle independent of zap.
+func c03EInfo(err error) SX {
+	msg, pv, panicked := c03CallError(err)
+	if panicked {
+		if rv := reflect.ValueOf(err); rv.Kind() == reflect.Ptr && rv.IsNil() {
+			return L(I(1))
+		}
+		return L(I(2), Str(fmt.Sprint(pv)))
+	}
+	verbose, members := L(), L()
+	plain := true
+	if g, ok := err.(interface{ Errors() []error }); ok {
+		plain = false
+		var ms []SX
+		for _, m := range g.Errors() {
+			if m == nil {
+				ms = append(ms, I(0))
+			} else {
+				ms = append(ms, c03EInfo(m))
+			}
+		}
+		members = L(L(ms...))
+	}
+	if f, ok := err.(fmt.Formatter); ok {
+		plain = false
+		verbose = L(Str(fmt.Sprintf("%+v", f)))
+	}
+	if plain {
+		return Str(msg)
+	}
+	return L(I(0), Str(msg), verbose, members)
+}
+
+func c03CallError(err error) (msg string, pv interface{}, panicked bool) {
+	defer func() {
+		if p := recover(); p != nil {
+			pv, panicked = p, true
+		}
+	}()
+	return err.Error(), nil, false
+}
 
 // several interfaces at once (zap.Any's priority)
 type c03ObjStrErr struct {
@@ -385,14 +586,14 @@ func c03Opq(x interface{}) SX {
 	if addr == -1 {
 		content = -1 // a nil pointer is deeply equal only to another nil pointer
 	}
-	str, es := "", ""
+	str, es := "", Str("")
 	if st, ok := x.(fmt.Stringer); ok {
 		str = st.String()
 	}
 	if e, ok := x.(error); ok {
-		es = e.Error()
+		es = c03EInfo(e)
 	}
-	return L(I(10), I(ty), Z(addr), Z(content), Bool(rv.Type().Comparable()), Bool(!nan), Str(str), Str(es))
+	return L(I(10), I(ty), Z(addr), Z(content), Bool(rv.Type().Comparable()), Bool(!nan), Str(str), es)
 }
 
 var c03FieldType = reflect.TypeOf(zapcore.Field{})
